@@ -232,6 +232,19 @@ def hier_groups(case):
             "sample": {"op": "group_mlp_prox_grad", "d": d, "K": K, "h": h, "alpha": alpha, "M": M, "groups": part}}
 
 
+def estimator_step_case(case):
+    """The operators as the sparse estimators apply them: every shrinkage step of a real fit / path is the minimiser for the DECLARED groups with
+    threshold alpha x learning rate - whichever way the estimator got its hyperparameters (constructor, set_params on a default or used object,
+    clone + set_params as in a grid search).  Reuses the step monitor of C06."""
+    from props import c06
+    r = c06.sparse_case(case)
+    v = []
+    for x in r.get("v", []):
+        if x["kind"] in ("shrinkage_is_not_prox_of_alpha_times_lr", "shrinkage_touches_other_weights"):
+            v.append(violation("estimator_step_is_not_the_minimiser", x["detail"], op="estimator:" + str(case[0]), route=case[9] if len(case) > 9 else "ctor"))
+    return {"v": v[:2], "nt": [repr(case)], "stats": {"evals": r.get("stats", {}).get("steps_checked", 1)}, "sample": {"case": repr(case)[:300]}}
+
+
 def explorers(tier, seed):
     thorough = tier == "thorough"
     gseed = 1000 + seed
@@ -278,8 +291,19 @@ def explorers(tier, seed):
     c2 += [("glg", d, K, a, big_partition(d, t), gseed + t) for d, K in ((24, 3), (60, 8), (150, 2)) for a in (0.0, 0.3, 1.7, 6.0) for t in range(2)]
     c3 += [("hier", K, h, a, M, None, gseed + 7 * K + h) for K, h in ((30, 50), (3, 200), (64, 2)) for a in (0.0, 0.3, 1.7) for M in (0.0, 0.7, 10.0)]
     c4 += [("hierg", d, K, h, a, M, big_partition(d, t), gseed + t) for d, K, h in ((24, 3, 5), (60, 4, 20)) for a in (0.3, 1.7) for M in (0.7, 10.0) for t in range(2)]
+    c5 = []
+    for name_, gem_ in (("SparseLinearModel", "mi"), ("SparseLinearMMD", "mmd_ova"), ("SparseLinearMI", "mi"), ("SparseMLPModel", "mi"), ("SparseMLPMMD", "mmd_ovo")):
+        for groups_ in (None, ((0, 1),), ((0, 2), (1, 3)), ((3, 1, 0),)):
+            for alpha_ in (0.05, 0.5):
+                for route_ in ("ctor", "set_params", "used_set_params", "regrouped"):
+                    for mode_ in ("fit", "path"):
+                        c5.append((name_, gem_, alpha_, 0.5 if "MLP" in name_ else None, groups_, None, False, mode_, seed, route_))
     menu = f"entries in {MENU}"
     return [
+        Explorer("operators_inside_the_estimators", "props.c05", "estimator_step_case", c5, chunk=4, floor=50, case_timeout=600,
+                 rule="5 sparse estimators x {no groups, one pair, two pairs, a triple} x alpha x {fit, path} x how the hyperparameters arrived (constructor, "
+                      "set_params on a default object, on a used object, after training with another group structure): every shrinkage step is the "
+                      "reference minimiser for the declared groups with threshold alpha x learning rate"),
         Explorer("grouplasso_rows", "props.c05", "gl_rows", c1, chunk=1, floor=50,
                  rule=f"linear_prox_grad on ALL rows with {menu} of length K<={Kmax} x alpha in {ALPHAS}, batch and one-row calls, "
                       "plus seed-generic rows; non-trivial = row shrunk but not zeroed (alpha>0)",
